@@ -24,6 +24,16 @@ pub fn create_module() -> Scope {
             }
             Ok(Value::Null)
         }
+        Value::ArgList(args) => {
+            let value = s.get(name!(value))?;
+            for (i, v) in Value::ArgList(args).iter_items().iter().enumerate()
+            {
+                if v == &value {
+                    return Ok(Value::scalar(i + 1));
+                }
+            }
+            Ok(Value::Null)
+        }
         Value::Map(map) => match s.get(name!(value))? {
             Value::List(ref l, Some(ListSeparator::Space), false)
                 if l.len() == 2 =>
